@@ -41,7 +41,13 @@ class Mgr:
         return u
 
     def tt(self, u):
-        return oracle.tt_fast(self.b, u, [vname(i) for i in self.names])
+        """truth table of `u` by variable names; -1 (no truth table) when `u` or a node
+        below it is not in the table: a dangling result, which callers report because it
+        differs from every expected table"""
+        try:
+            return oracle.tt_fast(self.b, u, [vname(i) for i in self.names])
+        except KeyError:
+            return -1
 
     def case(self):
         s = self.s
